@@ -45,3 +45,12 @@ Definition enc_hans (a : hans) : val :=
   end.
 Definition enc_hist (r : list hans * tree) : val :=
   VL [enc_list enc_hans (fst r); enc_tree (snd r); VB (digest (snd r))].
+
+(* Tree.digest(with_meta): the identifier always comes from the meta-free bytes; with_meta only
+   selects which bytes are kept as the object's content (path + ".with_meta").  None: as_bytes
+   raises AttributeError (an entry without Meta). *)
+Definition digest_obj (with_meta : bool) (t : tree) : option (list N * list N) :=
+  match as_bytes_res with_meta t with
+  | Some content => Some (md5_hex (as_bytes false t) ++ dot_dir, content)
+  | None => None
+  end.
